@@ -58,7 +58,9 @@ class Gen:
             for k in range(nitems):
                 kind = r.random()
                 lab = name if first else None
-                if kind < 0.7 or (first and nitems > 1 and kind < 0.85):
+                if first and nitems > 1 and r.random() < 0.15:
+                    kind = 0.8       # a section headed by a zero hole, initialised members after it
+                if kind < 0.7 or (k == nitems - 1 and nitems > 1 and first is False and not cells):
                     ty = r.choice(INT_TYPES + ['f', 'd', 'i32', 'i64'])
                     nel = r.choice([1, 1, 2, 3, 5])
                     vals = [self.data_value(ty) for _ in range(nel)]
@@ -229,7 +231,10 @@ class Gen:
             self.emit('fgt t9, f1, 1.0f')
         elif k < 0.65:
             n = r.randint(0, 4)
-            args = ''.join(', %s' % self.int_src(regs) for _ in range(n))
+            al = [self.int_src(regs) for _ in range(n)]
+            if n and r.random() < 0.35:   # a negative 32-bit literal as the first variadic argument (a bare C `int`)
+                al[0] = str(r.choice([-1, -5, -2147483648, -r.getrandbits(30) - 1]))
+            args = ''.join(', %s' % x for x in al)
             self.emit('call p_extv, ext_v, t9, %d%s' % (n, args))
         elif k < 0.8:
             name, size, cells, _ = r.choice(self.sections[:-1])
